@@ -250,6 +250,8 @@ def fixup(m):
     d.setdefault('set', core.SymSet)
     from . import stubs
     stubs.install(m)
+    from . import state
+    state.register(m)
 
 
 class Finder(importlib.abc.MetaPathFinder):
